@@ -57,7 +57,7 @@ static long ndet(int tier)
 static long ngeq(void);
 static long count(int tier)
 {
-    return ndet(tier) + 8 + ngeq() + 6 + 24;	/* + one ensemble case per type
+    return ndet(tier) + 8 + ngeq() + 6 + 24 + 4;	/* + one ensemble case per type
 					   + the p-value scale cases */
 }
 
@@ -1307,9 +1307,128 @@ done:
     vf_exec_end(r, mark);
 }
 
+/*
+ * Degrees of freedom of a set that samples leakage terms more than once.
+ * A TE10 or UE10 2x2 calibration from a through and two or three double
+ * reflects, every standard measured with its full 2x2 matrix: 4 readings
+ * per standard, 9 complex unknowns (7 terms of the linear system, 2 leakage
+ * terms), hence 2 (4 n - 9) degrees of freedom, of which 2 (k - 1) per
+ * leakage cell come from the scatter of its k samples.  As in the one-port
+ * scale cases, the squares of the displacements at which the solve begins
+ * to be rejected at two significance levels are in the ratio of the
+ * chi-square quantiles of that number.
+ */
+#define NLDF (2 * 2)
+static void ldf_push(cs_scenario *sc, int entry, int a, int b)
+{
+    cs_std *st = &sc->std[sc->nstd];
+    memset(st, 0, sizeof(*st));
+    st->entry = entry; st->np = 2; st->port[0] = 1; st->port[1] = 2;
+    st->null_map = true;
+    st->id = sc->nstd + 1;
+    for (int i = 0; i < 4; ++i) {
+	st->sp[i] = -1;
+	st->sv[i] = 0.0;
+    }
+    if (entry == CSE_THROUGH) {
+	st->sv[1] = st->sv[2] = 1.0;
+    } else {
+	st->sp[0] = a;
+	st->sp[3] = b;
+    }
+    ++sc->nstd;
+}
+
+static void run_ldf(long idx, vf_result *r)
+{
+    static const double alpha[2] = { 1e-2, 1e-4 };
+    static cs_scenario sc;
+    vnacal_type_t type = vf_digit(&idx, 2) ? VNACAL_UE10 : VNACAL_TE10;
+    int nrefl = 2 + (int)idx;		/* double reflects: 2 or 3 */
+    const double snf = 1e-5;
+    double thr[2];
+    char why[300], sig[120];
+    int pm, po, ps;
+    unsigned long mark = vf_exec_begin();
+
+    memset(&sc, 0, sizeof(sc));
+    cs_make_vna(&sc.vna, type, 2, 2, 1, g_net);
+    for (int k = 0; k < 3; ++k) {
+	cs_param q;
+	memset(&q, 0, sizeof(q));
+	q.kind = CSP_PREDEF; q.handle = -1;
+	q.predef = k == 0 ? VNACAL_MATCH : k == 1 ? VNACAL_OPEN :
+	    VNACAL_SHORT;
+	sc.param[sc.nparam++] = q;
+    }
+    pm = 0; po = 1; ps = 2;
+    ldf_push(&sc, CSE_THROUGH, -1, -1);
+    ldf_push(&sc, CSE_DOUBLE, ps, po);
+    ldf_push(&sc, CSE_DOUBLE, po, pm);
+    if (nrefl == 3)
+	ldf_push(&sc, CSE_DOUBLE, pm, ps);
+    const int df = 2 * (4 * sc.nstd - 9);
+    vf_desc(r, "%s 2x2, a through and %d double reflects measured in full "
+	    "(%d degrees of freedom, %d samples of each leakage term), noise "
+	    "floor 1e-5: displacement of the last reading at which the solve "
+	    "begins to be rejected, at significance 1e-2 and 1e-4",
+	    vnacal_type_to_name(type), nrefl, df, nrefl);
+    {
+	long double margin; int eqs, unk;
+	if (!cs_identifiable(&sc, (1u << sc.nstd) - 1u, &margin, &eqs, &unk)
+		|| margin < 1e-4L) {
+	    vf_outcome(r, "ldf skipped: set not determining");
+	    goto done;
+	}
+    }
+    sc.displace_id = sc.std[sc.nstd - 1].id;
+    g_tight_tol = 1e-11;
+    for (int a = 0; a < 2; ++a) {
+	int rv = ptu_threshold(&sc, snf, 0.0, alpha[a], &thr[a], r, why,
+		sizeof(why));
+	if (rv != 0) {
+	    if (rv < 0) {
+		snprintf(sig, sizeof(sig), "ldf-solve:%s",
+			vnacal_type_to_name(type));
+		vf_fail(r, sig, "%s", why);
+	    } else
+		vf_outcome(r, "ldf n/a: %s", why);
+	    goto done;
+	}
+    }
+    {
+	double got = (thr[1] / thr[0]) * (thr[1] / thr[0]);
+	double want = (double)(quantile_even(df, alpha[1]) /
+		quantile_even(df, alpha[0]));
+	vf_note("thresholds %.6g and %.6g: ratio of squares %.4f, chi-square "
+		"quantiles of %d degrees of freedom give %.4f", thr[0],
+		thr[1], got, df, want);
+	if (!(fabs(got - want) <= 0.025 * want)) {
+	    snprintf(sig, sizeof(sig), "ldf-ratio:%s:df%d",
+		    vnacal_type_to_name(type), df);
+	    vf_fail(r, sig, "%d degrees of freedom (%d readings, 9 unknowns): "
+		    "rejection begins at %.5g sigma for significance 1e-2 "
+		    "and %.5g sigma for 1e-4; the squares are in the ratio "
+		    "%.4f, the chi-square quantiles of the two levels in "
+		    "the ratio %.4f", df, 4 * sc.nstd, thr[0], thr[1], got,
+		    want);
+	    goto done;
+	}
+    }
+    r->nontrivial = 1;
+    vf_outcome(r, "ldf df=%d ok", df);
+done:
+    g_tight_tol = 0.0;
+    vf_exec_end(r, mark);
+}
+
 static void run(int tier, long idx, vf_result *r)
 {
     long nd = ndet(tier);
+    if (idx >= nd + 8 + ngeq() + 6 + 24) {
+	run_ldf(idx - nd - 8 - ngeq() - 6 - 24, r);
+	return;
+    }
     if (idx >= nd + 8 + ngeq() + 6) {
 	run_ptu(idx - nd - 8 - ngeq() - 6, r);
 	return;
